@@ -22,7 +22,7 @@ ANCHORS = ["decaylanguage.decay.decay:DecayChain.flatten"]
 WORKERS = {"quick": 4, "thorough": 16}
 WATCHDOG = {"quick": 600, "thorough": 3000}
 WTESTS = {"groups": ['flatten'], "tests": ['tests/decay']}
-REQUIRED = {"sub-decay-without-daughters": 10, 
+REQUIRED = {"cascade-deeper-than-10-levels:child-first": 3, "sub-decay-without-daughters": 10, 
     "subdecays>=4": 20, "mult3-of-decaying": 20, "reoccur-two-depths": 20, "mother-last": 20, "stable-nonempty": 20,
     "stable-as-set": 5, "stable-as-tuple": 5, "visible_bf": 20, "same-shape-other-branching-fractions": 20, "returned-chain-edited-then-original-compared": 50, "flatten-without-stable-set-after-one-with": 50, "all-sub-decays-with-bf-exactly-1": 20, "a-sub-decay-with-bf-exactly-0": 20,
     "C12.flatten.leaves_and_product": 500, "C12.flatten.original_unchanged": 500,
@@ -219,6 +219,17 @@ def run(ctx):
                 o = list(reversed(names))        # every child in front of its parent (the order DecayChain.from_dict produces)
             S = [] if j == 0 else ctx.rng.sample(others, ctx.rng.randint(0, min(3, len(others))))
             check_case(ctx, {"chain": ch, "order": o, "stable": S, "stable_type": stypes[(i + j) % 3], "visible": j == 0}, "gen")
+    # long cascades (one decaying daughter per level), the mapping given parent-first, child-first and shuffled
+    for depth in (11, 13, 17, 24, 32):
+        if not ctx.mine(depth):
+            continue
+        ch = chains.ladder(ctx.rng, depth, ctx.rng.choice([0, 1, 2]))
+        names = list(ch["types"])
+        others = names[1:]
+        for j, o in enumerate((names, list(reversed(names)), ctx.rng.sample(names, len(names)))):
+            S = [] if j < 2 else [ctx.rng.choice(others[len(others) // 2:])]
+            ctx.hit("cascade-deeper-than-10-levels" + (":child-first" if j == 1 else ""))
+            check_case(ctx, {"chain": ch, "order": o, "stable": S, "stable_type": stypes[j], "visible": j == 1}, "gen")
     b = contracts.Budget.get()
     ctx.note("max_line_events_in_one_flatten", b.max_seen)
     for name, n in contracts.COUNTS.items():
